@@ -3,6 +3,7 @@
   assume (non-vacuity of those hypotheses).
 -/
 import Lattigo.Proofs.StoreOps
+import Lattigo.Proofs.StoreDeg
 import Mathlib.Tactic.Ring
 import Mathlib.Order.Defs.LinearOrder
 
@@ -37,5 +38,11 @@ theorem intI_scaleLaws : ScaleLaws intI where
     simp only [intI, intFn] at *
     have : x < y := compare_lt_iff_lt.mp h
     exact max_eq_right (le_of_lt this)
+
+theorem intI_degLaws (sub : Bool) : DegLaws intI sub where
+  copyId := by intro x; simp [intI, intFn]
+  scalZero := by intro r; simp [intI, intFn]
+  evZeroR := by intro x; cases sub <;> simp [evOf, intI, intFn]
+  evZeroL := by intro x; cases sub <;> simp [evOf, post, intI, intFn]
 
 end Lattigo.Store
